@@ -522,6 +522,99 @@ where
     }
 }
 
+/// One chi-square phase of `draws` uniform picks of `h` (model `t` over `n` variables) with the given cache.
+fn uniform_phase<K: BoolKind>(ctx: &mut Ctx, h: &K::F, t: &Tt, n: u32, what: &str, cache: &mut Cache, orng: &mut oxidd::util::Rng, draws: usize, clause: &str) {
+    let k = K::NAME;
+    let models = t.count_ones() as usize;
+    if models < 2 {
+        return;
+    }
+    let mut hits = vec![0f64; 1 << n];
+    for _ in 0..draws {
+        let Some(c) = h.pick_cube_uniform(cache, orng) else {
+            ctx.violation(&format!("{k}:pick_cube_uniform:none-for-sat"), format!("{what}: f={t}"));
+            return;
+        };
+        let cube: Vec<Option<bool>> = c.iter().map(|&o| ob(o)).collect();
+        if cube.len() != n as usize {
+            ctx.violation(&format!("{k}:pick_cube_uniform:cube-length"), format!("{what}: f={t} cube {cube:?} for {n} variables"));
+            return;
+        }
+        let ct = cube_tt(n, &cube);
+        if ct.is_zero() || !ct.implies(t) {
+            ctx.violation(&format!("{k}:pick_cube_uniform:non-model"), format!("{what}: f={t} cube {cube:?}"));
+            return;
+        }
+        let w = 1.0 / ct.count_ones() as f64;
+        for a in 0..(1usize << n) {
+            if ct.get(a) {
+                hits[a] += w;
+            }
+        }
+    }
+    ctx.evals(draws as u64);
+    let exp = draws as f64 / models as f64;
+    let chi2: f64 = (0..(1usize << n)).filter(|&a| t.get(a)).map(|a| (hits[a] - exp).powi(2) / exp).sum();
+    let df = (models - 1).max(1) as f64;
+    let z = 6.2f64;
+    let thr = df * (1.0 - 2.0 / (9.0 * df) + z * (2.0 / (9.0 * df)).sqrt()).powi(3);
+    if chi2 > thr {
+        ctx.violation(&format!("{k}:pick_cube_uniform:{clause}"), format!("{what}: f={t}: chi2 {chi2:.1} > {thr:.1} (df {df}) after {draws} draws"));
+    } else {
+        ctx.distinct((k, clause.to_string(), what.to_string(), t.clone()));
+    }
+}
+
+/// pick_cube_uniform with ONE cache kept across `add_vars` (no gc, no reordering in between): the cached
+/// model counts are relative to the number of variables, so the function sampled afterwards - a decision
+/// node above one already counted child and one fresh child - is sampled with a wrong branch probability
+/// unless the cache notices the new variable count (C13-r6m1).
+fn uniform_addvars_kind<K: BoolKind>(ctx: &mut Ctx, draws: usize)
+where
+    for<'id> MgrOf<'id, K>: HasWorkers,
+    for<'x> INodeOfFunc<'x, K::F>: HasLevel,
+{
+    let k = K::NAME;
+    let mut frng = crate::rng::Rng::new(0x5EED_0003 + ctx.shard as u64 * 37); // fixed seeds: statistical test
+    let rounds = ctx.by_tier(2, 6);
+    for round in 0..rounds {
+        let n0 = 4u32;
+        let added = 1 + (round as u32 + ctx.shard as u32) % 3;
+        let n = n0 + added;
+        let mref = setup::<K>(1 << 14, 1 << 10, 1, n0);
+        // f1 does not depend on x0 and has at least two models
+        let mut t1 = Tt::random(n0, &mut frng).cofactor(0, true);
+        if t1.count_ones() < 2 || t1.is_one() {
+            t1 = Tt::var(n0, 1).or(&Tt::var(n0, 3));
+        }
+        let f1 = build_shannon::<K>(&mref, &t1);
+        let mut cache: Cache = Default::default();
+        cache.cache_all = true;
+        let mut orng = oxidd::util::Rng::new_seed(0xABCD_2000 + round as u64 + ctx.shard as u64 * 11);
+        uniform_phase::<K>(ctx, &f1, &t1, n0, "fresh cache, before add_vars", &mut cache, &mut orng, draws / 4, "biased-with-fresh-cache");
+        mref.with_manager_exclusive(|m| {
+            m.add_vars(added);
+        });
+        // what the old handle denotes over the new domain
+        let t1x = if K::SEM == Sem::ZeroSup { t1.extend_zero(n) } else { t1.extend(n) };
+        ctx.eval();
+        if interp_tt::<K>(&f1) != t1x {
+            ctx.violation(&format!("{k}:add_vars:handle-changed-function"), format!("f={t1} after add_vars({added})"));
+        }
+        // g = x0 ? f1 : q, with q over x1.. including the new variables and independent of x0
+        let mut q = Tt::random(n, &mut frng).cofactor(0, false);
+        if q.is_zero() {
+            q = Tt::var(n, n - 1);
+        }
+        let tg = Tt::var(n, 0).ite(&t1x, &q);
+        let g = build_shannon::<K>(&mref, &tg);
+        uniform_phase::<K>(ctx, &g, &tg, n, "same cache after add_vars, decision node above a counted and a fresh child", &mut cache, &mut orng, draws, "biased-with-cache-kept-across-add_vars");
+        uniform_phase::<K>(ctx, &f1, &t1x, n, "same cache after add_vars, the handle sampled before", &mut cache, &mut orng, draws / 2, "biased-with-cache-kept-across-add_vars");
+        ctx.count("uniform_draws_cache_across_add_vars", (draws + draws / 2) as u64);
+        ctx.sample(|| format!("{k} pick_cube_uniform with one cache across add_vars({added}): f1={t1}, g = x0 ? f1 : q = {tg}, {draws} draws, chi-square"));
+    }
+}
+
 /// pick_cube_uniform on managers whose variable count sits at the exponent limits of f64 (the
 /// branch probabilities are ratios of model counts over ALL variables: 2^1020 .. 2^1023 are the
 /// largest representable scales; from 1024 variables on the counts overflow, see DESIGN 9.3)
@@ -610,6 +703,9 @@ pub fn uniform(ctx: &mut Ctx) {
     uniform_reuse_kind::<Bdd>(ctx, draws);
     uniform_reuse_kind::<Bcdd>(ctx, draws);
     uniform_reuse_kind::<Zbdd>(ctx, draws);
+    uniform_addvars_kind::<Bdd>(ctx, draws);
+    uniform_addvars_kind::<Bcdd>(ctx, draws);
+    uniform_addvars_kind::<Zbdd>(ctx, draws);
 }
 
 #[allow(unused)]
